@@ -153,7 +153,7 @@ def run_structured(ctx, n_seq):
 
 
 # independent reference for the malformed stream
-REF_LINE = re.compile(br'(\d\d\d)([ \t-])(.*)', re.S)
+REF_LINE = re.compile(br'([1-5]\d\d)([ \t-])(.*)', re.S)
 
 
 def ref_parse(stream):
@@ -241,8 +241,6 @@ def run_malformed_structured(ctx, n):
             ctx.mismatch('recv-malformed2', dict(chunks=chunks), io_out, mo)
         ref = ref_parse(data)
         exp = {'lost': 3, 'bad': 1, 'badcode': 2, 'ok': 0}[ref[0]]
-        if exp == 2:
-            ctx.note('a three-digit code outside [1-5]dd (e.g. "600 ok") makes Reply.recv raise ValueError, not BadReply; not one of the malformed shapes the statement names, reported only')
         if io_out[0] != exp or (exp == 0 and (io_out[1] != ref[1] or io_out[3] != ref[3])):
             ctx.fail('c17:malformed', dict(chunks=chunks), 'expected %r got %r' % (ref, io_out))
 
